@@ -102,18 +102,21 @@ func (g *nestGen) body(ind, depth, fi int, deferred bool) {
 	n := 1 + g.r.Intn(4)
 	if deferred && g.r.Intn(3) > 0 {
 		g.recoverStmt(ind)
+		// a handler that, after recovering, runs code that panics and recovers on
+		// its own, and may then fail itself
+		if g.r.Intn(3) == 0 {
+			g.selfRecovered(ind)
+			if g.r.Intn(2) == 0 {
+				g.site(ind)
+				return
+			}
+		}
 	}
 	for i := 0; i < n && g.budget > 0; i++ {
 		g.budget--
 		switch k := g.r.Intn(108); {
 		case k >= 100:
-			// a panic that is raised and recovered inside one call
-			g.emit(ind, "func() {")
-			g.emit(ind+1, "defer func() {")
-			g.emit(ind+2, "pkg.Got(recover())")
-			g.emit(ind+1, "}()")
-			g.site(ind + 1)
-			g.emit(ind, "}()")
+			g.selfRecovered(ind)
 		case k < 20:
 			g.emit(ind, fmt.Sprintf("pkg.Tick(%d)", g.tick()))
 		case k < 31:
@@ -192,6 +195,16 @@ func (g *nestGen) body(ind, depth, fi int, deferred bool) {
 			}
 		}
 	}
+}
+
+// selfRecovered emits a call in which a panic is raised and recovered.
+func (g *nestGen) selfRecovered(ind int) {
+	g.emit(ind, "func() {")
+	g.emit(ind+1, "defer func() {")
+	g.emit(ind+2, "pkg.Got(recover())")
+	g.emit(ind+1, "}()")
+	g.site(ind + 1)
+	g.emit(ind, "}()")
 }
 
 // hostExit emits a call of Env.Stop or Env.Fatal through one of the host entry points
